@@ -507,9 +507,34 @@ def bosLoop : List Cmd → PS D → R (PS D)
       | .error e => .error e
       | .ok s' => bosLoop cs s'
 
-/-- bosonic `run_prog` -/
-def bosRun (initNum : Nat) (circuit : List Cmd) (s : PS D) : R (PS D) :=
-  bosLoop circuit (if circuit.isEmpty then s else bosInit initNum circuit)
+/-- bosonic `run_prog(prog, continuation)`: the first non-empty program of a computation goes through `init_circuit`
+(new simulator, the segment's `New`s up front, `_New_modes` skipped by the main loop); a continuation (`continuation =
+any(p.circuit for p in run_progs)`, handed over by `BosonicEngine._run_program`) is executed command by command on
+the simulator as it is; an empty program does nothing -/
+def bosRun (initNum : Nat) (circuit : List Cmd) (s : PS D) (cont : Bool) : R (PS D × Bool) :=
+  if circuit.isEmpty then .ok (s, cont)
+  else if cont then
+    match runCircuit circuit s with
+    | .error e => .error e
+    | .ok s' => .ok (s', true)
+  else
+    match bosLoop circuit (bosInit initNum circuit) with
+    | .error e => .error e
+    | .ok s' => .ok (s', true)
+
+/-- `BosonicModes.mb_squeeze_single_shot(k, …)` (`MSgate(avg=False)`), mode bookkeeping: activity test of the target,
+`add_mode()` for the ancilla (stored mode `nlen`), operations on target and ancilla, `del_mode(ancilla)`, the ancilla's
+rows and columns are deleted from the arrays, `nlen -= 1`, `active = active[:ancilla]`.  (Data: for the squeezing
+parameter 0 used by the histories the target row is written back unchanged.) -/
+def msSingleShot (s : PS D) (k : Nat) : R (PS D) :=
+  match s.check k with
+  | .error e => .error e
+  | .ok _ =>
+    let s1 := s.addMode 1
+    let anc := s1.nlen - 1
+    match s1.delMode [anc] with
+    | .error e => .error e
+    | .ok s2 => .ok { s2 with nlen := s2.nlen - 1, active := s2.active.take anc, rows := s2.rows.take anc }
 
 end PS
 
@@ -526,8 +551,11 @@ def fockOps (D : Type) [DataSem D] : BackendOps D (Fock D) :=
   ⟨Fock.begin, Fock.reset, fun _ cs s => Fock.runCircuit cs s, Fock.getModes, Fock.stateNone⟩
 def gaussOps (D : Type) [DataSem D] : BackendOps D (PS D) :=
   ⟨PS.begin, PS.reset, fun _ cs s => PS.runCircuit cs s, PS.getModes, PS.stateNone⟩
-def bosOps (D : Type) [DataSem D] : BackendOps D (PS D) :=
-  ⟨PS.begin, PS.reset, PS.bosRun, PS.getModes, PS.stateNone⟩
+/-- the bosonic back end together with the engine's knowledge whether a non-empty segment was run since the last
+`begin_circuit` (`run_progs` is cleared by `eng.reset()`, which is followed by `begin_circuit` on the next run) -/
+def bosOps (D : Type) [DataSem D] : BackendOps D (PS D × Bool) :=
+  ⟨fun n => (PS.begin n, false), fun b => (PS.reset b.1, false), fun n cs b => PS.bosRun n cs b.1 b.2,
+   fun b => PS.getModes b.1, fun b => PS.stateNone b.1⟩
 
 /-- insertion of a dict key (ascending, no repetition) -/
 def insertKey (m : Nat) : List Nat → List Nat
@@ -536,10 +564,13 @@ def insertKey (m : Nat) : List Nat → List Nat
 
 /-- `_run_program` / `run_prog`: the keys of `samples_dict` (`Result.samples_dict`) after a segment — the indices
 (`r.ind`, not the positions) of every subsystem a measurement of the segment acted on -/
-def samplesKeys (cs : List Cmd) : List Nat :=
-  cs.foldl (fun ks c => match c.op with
-    | .measure => c.reg.foldl (fun ks m => insertKey m ks) ks
-    | _ => ks) []
+def samplesStep (ks : List Nat) (c : Cmd) : List Nat :=
+  match c.op with
+  | .measure => c.reg.foldl (fun ks m => insertKey m ks) ks
+  | _ => ks
+
+/-- the keys after a whole segment -/
+def samplesKeys (cs : List Cmd) : List Nat := cs.foldl samplesStep []
 
 /-- history alphabet -/
 inductive Ev
